@@ -6,6 +6,11 @@ import os
 import sys
 
 
+def _level(prop, mod):
+    from .registry import CLAIMS
+    return CLAIMS.get(prop, {}).get("level", getattr(mod, "LEVEL", "other"))
+
+
 def main(argv=None):
     ap = argparse.ArgumentParser(prog="pdxsa")
     sub = ap.add_subparsers(dest="cmd", required=True)
@@ -29,7 +34,7 @@ def main(argv=None):
             return 2
         seed = int(os.environ.get("VERIF_SEED", "0") or 0)
         return report.run_check(prop, mod.run, args.tier, args.repo, seed=seed, replay=args.replay,
-                                level=getattr(mod, "LEVEL", "other"),
+                                level=_level(prop, mod),
                                 checker_cmd=f"python3-vt -m pdxsa check {prop} --tier {args.tier}")
     if args.cmd == "selftest":
         from . import selftest
